@@ -94,3 +94,12 @@ theories/Verdict/VerdictProofs.vos theories/Verdict/VerdictProofs.vok theories/V
 theories/Properties_C02.vo theories/Properties_C02.glob theories/Properties_C02.v.beautified theories/Properties_C02.required_vo: theories/Properties_C02.v theories/Verdict/Verdict.vo theories/Verdict/VerdictProofs.vo
 theories/Properties_C02.vio: theories/Properties_C02.v theories/Verdict/Verdict.vio theories/Verdict/VerdictProofs.vio
 theories/Properties_C02.vos theories/Properties_C02.vok theories/Properties_C02.required_vos: theories/Properties_C02.v theories/Verdict/Verdict.vos theories/Verdict/VerdictProofs.vos
+theories/Verdict/ICache.vo theories/Verdict/ICache.glob theories/Verdict/ICache.v.beautified theories/Verdict/ICache.required_vo: theories/Verdict/ICache.v 
+theories/Verdict/ICache.vio: theories/Verdict/ICache.v 
+theories/Verdict/ICache.vos theories/Verdict/ICache.vok theories/Verdict/ICache.required_vos: theories/Verdict/ICache.v 
+theories/Verdict/ICacheProofs.vo theories/Verdict/ICacheProofs.glob theories/Verdict/ICacheProofs.v.beautified theories/Verdict/ICacheProofs.required_vo: theories/Verdict/ICacheProofs.v theories/Verdict/ICache.vo
+theories/Verdict/ICacheProofs.vio: theories/Verdict/ICacheProofs.v theories/Verdict/ICache.vio
+theories/Verdict/ICacheProofs.vos theories/Verdict/ICacheProofs.vok theories/Verdict/ICacheProofs.required_vos: theories/Verdict/ICacheProofs.v theories/Verdict/ICache.vos
+theories/Properties_C01.vo theories/Properties_C01.glob theories/Properties_C01.v.beautified theories/Properties_C01.required_vo: theories/Properties_C01.v theories/Verdict/Verdict.vo theories/Verdict/VerdictProofs.vo theories/Verdict/ICache.vo theories/Verdict/ICacheProofs.vo
+theories/Properties_C01.vio: theories/Properties_C01.v theories/Verdict/Verdict.vio theories/Verdict/VerdictProofs.vio theories/Verdict/ICache.vio theories/Verdict/ICacheProofs.vio
+theories/Properties_C01.vos theories/Properties_C01.vok theories/Properties_C01.required_vos: theories/Properties_C01.v theories/Verdict/Verdict.vos theories/Verdict/VerdictProofs.vos theories/Verdict/ICache.vos theories/Verdict/ICacheProofs.vos
